@@ -50,6 +50,10 @@ def generate(seed, tier, index):
             for _ in range(rng.choice([0, 0, 1, 1, 2])):
                 h = {"kind": kind, "on": [[vec, el]], "coro": rng.random() < 0.35, "veto": kind == "Write" and rng.random() < 0.25}
                 if rng.random() < 0.2:
+                    # subscribed / unsubscribed at run time through the definition's public attach_event_handler API
+                    h["dynamic"] = True
+                    h["coro"] = False
+                if rng.random() < 0.2:
                     other = rng.choice([e for e in ELEMENTS if e != (vec, el)])
                     h["on"].append(list(other))
                 handlers.append(h)
@@ -76,7 +80,11 @@ def generate(seed, tier, index):
             steps.append({"op": "set_value", "vec": vec, "el": el, "value": val})
         elif r < 0.85:
             steps.append({"op": "assign", "vec": vec, "el": el, "value": val})
-        elif r < 0.93:
+        elif r < 0.9:
+            dyn = [i for i, h in enumerate(handlers) if h.get("dynamic")]
+            if dyn:
+                steps.append({"op": rng.choice(["attach", "attach", "detach"]), "hid": rng.choice(dyn)})
+        elif r < 0.95:
             steps.append({"op": "read_attr"})
         else:
             steps.append({"op": "getprops"})
@@ -106,8 +114,18 @@ def build_driver(scen, trace, sim):
 
     dct = {"name": "EV", "main": grp}
     cls_kind = {"Write": Write, "Change": Change, "Read": Read}
+    dynamic = {}
     for i, h in enumerate(scen["handlers"]):
         srcs = [eldef(el) for _, el in h["on"]]
+        if h.get("dynamic"):
+            def drec(event, hid=i, h=h):
+                trace.append({"t": sim.loop.time(), "what": "handler", "hid": hid, "kind": h["kind"], "coro": False, "el": event.element.name,
+                              "vec": event.vector.name, "at_entry": event.element._value, "new": getattr(event, "new_value", None),
+                              "old": getattr(event, "old_value", None)})
+                if h["veto"]:
+                    event.prevent_default = True
+            dynamic[i] = {"srcs": srcs, "type": cls_kind[h["kind"]], "cb": drec, "uids": None}
+            continue
 
         def rec(event, hid=i, h=h):
             entry = {"t": sim.loop.time(), "what": "handler", "hid": hid, "kind": h["kind"], "coro": h["coro"], "el": event.element.name,
@@ -145,7 +163,7 @@ def build_driver(scen, trace, sim):
             def r2(self, event):
                 rrec(event, "r2")
             dct["r2"] = on(eldef("R0"), Read)(r2)
-    return type("EvDriver", (Driver,), dct), attr
+    return type("EvDriver", (Driver,), dct), attr, dynamic
 
 
 def execute(scen):
@@ -157,7 +175,7 @@ def execute(scen):
     invoked_any = False
     with Sim(scen["seed"], cfg, PoolConfig()) as sim:
         trace = []
-        cls, attr = build_driver(scen, trace, sim)
+        cls, attr, dynamic = build_driver(scen, trace, sim)
         stack = Stack(sim, [])
         drv = cls(router=stack.router)
         stack.drivers["EV"] = drv
@@ -181,7 +199,8 @@ def execute(scen):
             return vec != scen["disabled_vec"]
 
         def subscribed(kind, vec, el):
-            return [i for i, h in enumerate(scen["handlers"]) if h["kind"] == kind and [vec, el] in h["on"]]
+            return [i for i, h in enumerate(scen["handlers"]) if h["kind"] == kind and [vec, el] in h["on"]
+                    and (not h.get("dynamic") or dynamic[i]["uids"] is not None)]
 
         def check_element_op(opname, vec, el, requested, old, mark, raised_write, ctx):
             """Checks the contract for one element operation from trace[mark:]."""
@@ -288,6 +307,17 @@ def execute(scen):
                 continue
             sim.settle()
             mark = len(trace)
+            if op in ("attach", "detach"):
+                d = dynamic[st["hid"]]
+                if op == "attach" and d["uids"] is None:
+                    d["uids"] = [(src, src.attach_event_handler(d["type"], d["cb"])) for src in d["srcs"]]
+                    probes["handler_attached_at_run_time"] = probes.get("handler_attached_at_run_time", 0) + 1
+                elif op == "detach" and d["uids"] is not None:
+                    for src, uid in d["uids"]:
+                        src.detach_event_handler(uid)
+                    d["uids"] = None
+                    probes["handler_detached_at_run_time"] = probes.get("handler_detached_at_run_time", 0) + 1
+                continue
             if op in ("set_value", "assign"):
                 vec, el, val = st["vec"], st["el"], st["value"]
                 old = el_obj(el)._value
